@@ -45,7 +45,7 @@ def _execute(record, root):
             stats["probes"]["solves_that_raised"] = stats["probes"].get("solves_that_raised", 0) + 1
             # every generated configuration is a documented, selectable way of solving a molecule inside the statement's
             # domain: a path that raises does not "yield the same energy"
-            if e.get("from") == "fault:asym":
+            if e.get("start_asymmetric") or e.get("from") == "fault:asym":
                 # an asymmetric matrix is not a density any caller can hold: under this injected fault a solve may fail
                 # loudly (the Krylov solver does, with NaN -> ValueError); it may never return wrong data, which the
                 # comparisons below keep checking for every solve that does return
